@@ -22,6 +22,8 @@ type Action struct {
 	Custom func(t *Trans) bool // optional: property-specific transition (returns false if disabled)
 	Macro  string              // "epoch": run blocks until the validation-finishing block is in
 	Script []Action            // run these actions in sequence (every inner block runs the hooks)
+	// By, if set, makes that actor (e.g. "P") the proposer when it is eligible; otherwise the action is disabled
+	By string
 	// MaxPath > 0 enables the action only in states reached by fewer than MaxPath actions
 	MaxPath int
 	// When, if set, enables the action only in states whose key contains one of these substrings (e.g. " per=2 ")
@@ -109,7 +111,18 @@ func (m *Model) Init(scn int) *chainmc.State {
 	if scn < len(m.Prefix) {
 		for i, names := range m.Prefix[scn] {
 			c := &chainmc.Ctx{Check: false, Scn: scn, A: -1}
-			nx := m.oneBlock(scn, st, m.Drive(names...), c)
+			by := ""
+			var tn []string
+			for _, n := range names {
+				if strings.HasPrefix(n, "@by:") {
+					by = n[4:]
+				} else {
+					tn = append(tn, n)
+				}
+			}
+			pa := m.Drive(tn...)
+			pa.By = by
+			nx := m.oneBlock(scn, st, pa, c)
 			if nx == nil {
 				panic(fmt.Sprintf("scenario %s: prefix block %d failed", m.Scn[scn], i))
 			}
@@ -183,6 +196,20 @@ func (m *Model) oneBlock(scn int, st *chainmc.State, a Action, c *chainmc.Ctx) *
 	if err != nil {
 		c.Violation("restart-failed", "start-up sequence failed on a committed image: "+err.Error(), nil)
 		return nil
+	}
+	if a.By != "" {
+		k := -1
+		for i, n := range world.ActorNames {
+			if n == a.By {
+				k = i
+			}
+		}
+		if k < 0 || !A.App.ValidatorsCache.IsOnlineIdentity(world.A(k)) {
+			return nil
+		}
+		if A, err = world.OpenAs(m.Opts[scn], st.Img, st.Now, k); err != nil {
+			return nil
+		}
 	}
 	t := &Trans{M: m, C: c, Scn: scn, Opts: m.Opts[scn], St: st, Act: a, A: A, NextAux: map[string]string{}}
 	for k, v := range st.Aux {
@@ -306,10 +333,11 @@ func RichScenario() (string, replica.Opts, [][]string) {
 	o := world.GenesisG2()
 	o.WithCeremony = true
 	return "G2-rich(pool,invitee,contract)", o, [][]string{
-		{"online V1", "online P", "delegate D1->P", "delegate D2->P", "invite G->NEW"},
+		{"online V1", "online P", "delegate D1->P", "delegate D2->P", "delegate N1->P", "invite G->NEW"},
 		{"activate NEW->self", "online V2", "deploy timelock X1 stake ok"},
 		{"replenish X1->NEW 10", "submitFlip V1 pair0", "fund contract0 X2 5"},
 		{},
+		{"@by:P"}, // the pool has proposed once: its delegation nonce now points at a delegator
 	}
 }
 
@@ -367,6 +395,7 @@ func (m *Model) StdDrive() {
 		Action{Name: "jump-to-next-phase", Jump: 1, Expand: true},
 		Action{Name: "jump-before-next-phase", Jump: 2, Expand: true},
 		Action{Name: "run-ceremony-to-epoch-end", Macro: "epoch", Expand: true},
+		Action{Name: "block-proposed-by-pool-P", By: "P", Expand: true},
 	)
 }
 
